@@ -300,13 +300,10 @@ class DomainValueExtractor:
         if isinstance(variable, Literal):
             return sample
 
-        if get_dao_class(type(sample)) is None:
-            return sample
-
-        # a variable over mapped entities stands for every element of its domain, not for one row
+        # a variable stands for every element of its domain, not for its first element
         raise DomainExtractionError(
             f"A variable of type {type(sample).__name__} cannot be used as an operand; "
-            "compare attributes of the two variables instead."
+            "compare attributes of the two variables, or use in_ with a literal collection."
         )
 
 
@@ -711,6 +708,11 @@ class EQLTranslator:
         if isinstance(operand, Variable):
             extractor = DomainValueExtractor(self.session)
             return extractor.extract_from_variable(operand)
+
+        if isinstance(operand, SymbolicExpression):
+            raise UnsupportedQueryTypeError(
+                f"Unknown operand type: {type(operand).__name__}"
+            )
 
         return operand
 
